@@ -32,6 +32,7 @@ TNext ==
                   /\ (o.nflush <= 1 => v = r)      \* (the final Flush before Close is always there)
                   /\ o.nflush <= 3 + (E.t - o.t0) \div o.interval
        [] E.ev = "RESET"  -> o.closed /\ o' = O0
+       [] OTHER -> FALSE      \* HUNG, Panic, HarnessError, ...: no action explains them
 TSpec == TInit /\ [][TNext]_<<tvars, vars>>
 HWM == IF l > TLCGet(1) THEN TLCSet(1, l) ELSE TRUE
 Accepted_ == IF TLCGet(1) = Len(Trace) + 1 THEN TRUE
